@@ -96,3 +96,51 @@ Section Numeric.
   Lemma law_index : law (index_codec T fmt_int parse_int).
   Proof. split; [intro l; simpl; apply parse_emit_index | reflexivity]. Qed.
 End Numeric.
+
+(* ---- conditional laws *)
+Lemma lawP_of_law {M B} (c : codec M B) : law c -> lawP (fun _ => True) c.
+Proof. intros [A1 A2]. split; intros m _; [split; [apply A1 | exact I] | apply A2]. Qed.
+
+Lemma lawP_exact_read {M B} (P : M -> Prop) (emit : M -> B) (read : B -> option M) :
+  (forall m, P m -> read (emit m) = Some m) -> lawP P (Codec emit read (fun m => m)).
+Proof. intro H. split; intros m Pm; simpl; [split; [apply H; exact Pm | exact Pm] | reflexivity]. Qed.
+
+Lemma lawP_pair {M1 B1 M2 B2} P1 P2 (c1 : codec M1 B1) (c2 : codec M2 B2) :
+  lawP P1 c1 -> lawP P2 c2 -> lawP (fun m => P1 (fst m) /\ P2 (snd m)) (pair_codec c1 c2).
+Proof.
+  intros [A1 A2] [B1' B2']. split.
+  - intros [a b] [Pa Pb]. simpl in *. destruct (A1 a Pa) as [Ha Pa']. destruct (B1' b Pb) as [Hb Pb'].
+    rewrite Ha. simpl. rewrite Hb. simpl. auto.
+  - intros [a b] [Pa Pb]. simpl in *. rewrite (A2 a Pa), (B2' b Pb). reflexivity.
+Qed.
+
+Lemma lawP_list {M B} P (c : codec M B) : lawP P c -> lawP (Forall P) (list_codec c).
+Proof.
+  intros [A1 A2]. split.
+  - intros l Hl. simpl. induction Hl as [|m l Pm Hl IH]; [split; [reflexivity | constructor]|].
+    destruct (A1 m Pm) as [Hm Pm']. destruct IH as [IH1 IH2]. simpl. rewrite Hm. simpl. rewrite IH1. simpl.
+    split; [reflexivity | constructor; assumption].
+  - intros l Hl. simpl. induction Hl as [|m l Pm Hl IH]; [reflexivity|]. simpl. rewrite (A2 m Pm), IH. reflexivity.
+Qed.
+
+Section GenericP.
+  Context {M B : Type} (P : M -> Prop) (c : codec M B).
+  Hypothesis L : lawP P c.
+
+  Lemma gen1_fixed_P m0 m1 m2 :
+    P m0 -> reload c m0 = Some m1 -> reload c m1 = Some m2 ->
+    P m1 /\ m2 = m1 /\ gen_bytes c m2 = gen_bytes c m1 /\ reload c m2 = Some m2.
+  Proof.
+    destruct L as [L1 L2]. intros P0 H1 H2. unfold reload in *.
+    destruct (L1 m0 P0) as [E0 P1]. rewrite E0 in H1. inversion H1. subst m1.
+    destruct (L1 _ P1) as [E1 _]. rewrite E1, (L2 m0 P0) in H2. inversion H2. subst m2.
+    repeat split; try assumption. rewrite E1, (L2 m0 P0). reflexivity.
+  Qed.
+
+  Lemma write_after_load_total_P m0 m1 : P m0 -> reload c m0 = Some m1 -> exists m2, reload c m1 = Some m2.
+  Proof.
+    destruct L as [L1 L2]. intros P0 H1. unfold reload in *.
+    destruct (L1 m0 P0) as [E0 P1]. rewrite E0 in H1. inversion H1. subst m1.
+    destruct (L1 _ P1) as [E1 _]. eauto.
+  Qed.
+End GenericP.
